@@ -57,6 +57,9 @@ SCRIPTS = {
                              ('add_jobs', 'u1', 2, [J(1, abs_parents=[1], group=1)]),
                              ('add_jobs', 'u1', 2, [J(2, parents=[1], group=1, always_run=True)]), ('commit', 'u1', 2)],
     'u3_independent_job': [('new_update', 'u1', 't3', 1, 0), ('add_jobs', 'u1', 3, [J(1, abs_group=0)]), ('commit', 'u1', 3)],
+    # one update stages jobs of the SAME group in two instance collections (standard and highmem pools)
+    'u2_two_pools': [('new_update', 'u1', 't2', 2, 0),
+                     ('add_jobs', 'u1', 2, [J(1, abs_group=1), J(2, abs_group=1, memory='highmem')]), ('commit', 'u1', 2)],
     'u2_rest_after_reserve': [('add_jobs', 'u1', 2, [J(1, abs_parents=[1], abs_group=0)]), ('commit', 'u1', 2)],
     'u2_empty_groups_only': [('new_update', 'u1', 't2', 0, 1), ('add_groups', 'u1', 2, [G(1, parent_abs=0)]), ('commit', 'u1', 2)],
 }
@@ -367,7 +370,11 @@ class Family(dbmc.Harness):
         self.opts = dict(opts or {})
 
     def make_world(self):
-        return ops.BatchWorld(instances=(('i1', 'standard', 'active'), ('i2', 'standard', 'active')))
+        inst = (('i1', 'standard', 'active'), ('i2', 'standard', 'active'))
+        if self.opts.get('job_private'):
+            # + a job-private instance that is still pending (jobs pass through Creating on it)
+            inst += (('i3', 'job-private', 'pending'),)
+        return ops.BatchWorld(instances=inst)
 
     # state carried next to the store: position in the update-2 script
     def initial(self, w):
@@ -412,6 +419,10 @@ class Family(dbmc.Harness):
             j = a['job_id']
             if a['start_time'] is None and a['end_time'] is None:
                 out.append(('started', j, a['attempt_id'], inst, 10))
+            elif a['end_time'] is not None and self.opts.get('dup_reports', True) and self.opts.get('late_started', True) \
+                    and v.job_by_id[j]['attempt_id'] == a['attempt_id'] and (self.tier != 'quick' or v.job_by_id[j]['state'] in TERMINAL):
+                # the worker posts job_started from a background task with retries: it can be handled after job_complete
+                out.append(('started', j, a['attempt_id'], inst, 10))
             for s in ('Success', 'Failed'):
                 # a worker reports the outcome of an attempt until the driver acknowledges it, then never again;
                 # further copies (dup_reports) model retries after a lost response
@@ -435,6 +446,21 @@ class Family(dbmc.Harness):
                     for inst in ('i1', 'i2')[: 1 if self.tier == 'quick' else 2]:
                         if st[inst] != 'active' or v.job_cancelled(j):
                             out.append(('schedule', j['job_id'], f"L{j['job_id']}", inst))
+        if self.opts.get('job_private') and 'i3' in st:
+            # job-private path: the driver puts a Ready job into Creating on a pending instance, the instance activates,
+            # then schedule_job is called with the attempt recorded by mark_job_creating
+            have = {(a['job_id'], a['attempt_id']) for a in atts}
+            for j in v.jobs[:2] if not self.opts.get('job_private_nested_only') else [x for x in v.jobs if x['job_group_id'] != 0][:1]:
+                jid = j['job_id']
+                att = f'P{jid}'
+                if st['i3'] == 'pending' and j['state'] == 'Ready' and (jid, att) not in have and not any(x[1].startswith('P') for x in have):
+                    out.append(('creating', jid, att, 'i3', 10))
+                if (jid, att) in have:
+                    if st['i3'] == 'pending':
+                        out.append(('activate', 'i3', 10))
+                    if st['i3'] == 'active' and j['state'] == 'Creating':
+                        out.append(('schedule', jid, att, 'i3'))
+            out.append(('canceller', 'creating'))
         if not self.opts.get('no_cancel'):
             for g in v.groups:
                 out.append(('cancel', g['job_group_id']))
@@ -451,7 +477,8 @@ class Family(dbmc.Harness):
         if not self.opts.get('no_sweeps'):
             out.append(('sweep_staging',))
             out.append(('sweep_cancellable',))
-            if w.pos < len(script) and script[w.pos][0] != 'commit' and any(l[0] in ('add_jobs', 'add_groups') for l in script[w.pos:]):
+            if self.opts.get('sweep_windows', True) and w.pos < len(script) and script[w.pos][0] != 'commit' \
+                    and any(l[0] in ('add_jobs', 'add_groups') for l in script[w.pos:]):
                 # the cleaner issues one DELETE per target, each its own transaction: the front end can stage the open
                 # update's bunches between two of them
                 for k in (1, 2):
